@@ -646,6 +646,18 @@ def family_values():
         files = {'providers.go': '\n'.join(prov), 'wire.go': '\n'.join(wf), 'zz_driver.go': '\n'.join(drv)}
         extra = {} if home == 'same' else {'q': {'q.go': '\n'.join(qdecl)}}
         specs.append(RawSpec(files, 'wire.Value over %d expression forms, set declared in %s package' % (len(accept), 'the injector\'s' if home == 'same' else 'another'), family='values', extra_pkgs=extra))
+    # several values in one injector whose types derive the same variable name
+    files = {
+        'providers.go': ('package {PKG}\n\nimport (\n\t"example.com/corpus/vrt"\n\t"example.com/corpus/{PKG}/q"\n)\n\ntype Limits struct{ N int }\ntype App struct{ ID int }\n\nvar Base = vrt.ArgID("base")\n\n'
+                         'func NewApp(a Limits, b *Limits, c q.Limits, d []string, e map[string]int, f [2]int) App {\n\tid, _ := vrt.Call(0, false, a.N, b.N, c.N, len(d), e["k"], f[1])\n\treturn App{ID: id}\n}\n'),
+        'wire.go': ('//go:build wireinject\n// +build wireinject\n\npackage {PKG}\n\nimport (\n\t"github.com/google/wire"\n\t"example.com/corpus/{PKG}/q"\n)\n\n'
+                    'func Inject() App {\n\tpanic(wire.Build(NewApp, wire.Value(Limits{N: Base}), wire.Value(&Limits{N: Base + 1}), wire.Value(q.Limits{N: 7}), wire.Value([]string{"a", "b"}), wire.Value(map[string]int{"k": 5}), wire.Value([2]int{1, Base + 2})))\n}\n'),
+        'zz_driver.go': ('//go:build !wireinject\n// +build !wireinject\n\npackage {PKG}\n\nimport "example.com/corpus/vrt"\n\nfunc VDrive() {\n'
+                         '\tspec := &vrt.Spec{Nodes: []vrt.Node{{Name: "NewApp", Kind: vrt.KFunc, Params: []vrt.Ref{{Node: 1, Comp: 0}, {Node: 1, Comp: 1}, {Node: -1, Const: 7}, {Node: -1, Const: 2}, {Node: -1, Const: 5}, {Node: 1, Comp: 2}}}, {Name: "base", Kind: vrt.KArg}}, Result: []vrt.Ref{{Node: 0}}}\n'
+                         '\tspec.ArgIDs = [][]int{nil, {Base, Base + 1, Base + 2}}\n\tvrt.Reset()\n\tres := Inject()\n\tvrt.Check(spec, vrt.Outcome{Result: []int{res.ID}, CleanupNil: true})\n\tvrt.Cover("values-checked")\n}\n'),
+    }
+    specs.append(RawSpec(files, 'six values in one injector whose types derive colliding variable names (T and *T, same name in another package, unnamed slice / map / array)', family='values',
+                         extra_pkgs={'q': {'q.go': 'package q\n\ntype Limits struct{ N int }\n'}}, compile_props=['C01', 'C13', 'C14']))
     # interface values
     files = {
         'providers.go': 'package {PKG}\n\nimport "example.com/corpus/vrt"\n\ntype I interface{ VID() int }\ntype C struct{ ID int }\nfunc (c C) VID() int { return c.ID }\nvar Base = vrt.ArgID("base")\n',
